@@ -21,7 +21,7 @@ import (
 
 // Protocol crash, 3-replica runs:
 //
-//	run3 seed=<n> point=<name> k=<k> writes=<w> victim=leader|follower [delay=<ms>] [win=<n>] [phase=2] [killat=<acks> [revive=1]]
+//	run3 seed=<n> point=<name> k=<k> writes=<w> victim=leader|follower [delay=<ms>] [win=<n>] [phase=2] [killat=<acks> [revive=1]] [procs=<n>]
 //
 // (killat: the victim is killed with SIGKILL after that many acknowledgements, in the MIDDLE of the history; the client
 // goes on writing — to the new leader when the leader was killed; what the dead leader left unanswered is reported as
@@ -151,6 +151,7 @@ type group3 struct {
 	ports []int // raft×3, http×3, redis×3, grpc×3
 	kids  [3]*child3
 	lives [3]int
+	procs int // GOMAXPROCS of the children (0 = default)
 }
 
 func (g *group3) start(i int, env string) error {
@@ -180,6 +181,9 @@ func (g *group3) start(i int, env string) error {
 	lf, _ := os.Create(filepath.Join(g.root, fmt.Sprintf("child-%d-%d.log", i+1, g.lives[i])))
 	c.Stdout, c.Stderr = lf, lf
 	c.Env = append(os.Environ(), "VERIF_CRASH="+env)
+	if g.procs > 0 {
+		c.Env = append(c.Env, "GOMAXPROCS="+strconv.Itoa(g.procs))
+	}
 	if err := c.Start(); err != nil {
 		return err
 	}
@@ -245,7 +249,7 @@ func (g *group3) waitLeader(d time.Duration) int {
 	return -1
 }
 
-func runCrash3(c *Ctx, seed int64, point string, k, n, delay, win int, victimRole string, phase int, killAt int, revive bool) string {
+func runCrash3(c *Ctx, seed int64, point string, k, n, delay, win int, victimRole string, phase int, killAt int, revive bool, procs int) string {
 	rng := rand.New(rand.NewSource(seed))
 	root, err := ioutil.TempDir("", "zvh-crash3-")
 	if err != nil {
@@ -256,7 +260,7 @@ func runCrash3(c *Ctx, seed int64, point string, k, n, delay, win int, victimRol
 	if err != nil {
 		return "err ports " + err.Error()
 	}
-	g := &group3{root: root, ports: ports}
+	g := &group3{root: root, ports: ports, procs: procs}
 	defer g.killAll()
 	tag := fmt.Sprintf("seed=%d point=%s k=%d delay=%d win=%d victim=%s phase=%d replicas=3", seed, point, k, delay, win, victimRole, phase)
 	if killAt > 0 {
@@ -264,8 +268,16 @@ func runCrash3(c *Ctx, seed int64, point string, k, n, delay, win int, victimRol
 	}
 	victim := rng.Intn(3)
 	env := ""
+	slow := delay < 0 // the step is only slow (the goroutine sleeps at the point), the process is not killed there
+	if slow {
+		delay = -delay
+	}
 	if point != "kill" {
 		env = fmt.Sprintf("%s:%d:%d", point, k, delay)
+		if slow {
+			env += ":slow"
+			tag += " slow"
+		}
 	}
 	for i := 0; i < 3; i++ {
 		e := ""
@@ -319,6 +331,24 @@ func runCrash3(c *Ctx, seed int64, point string, k, n, delay, win int, victimRol
 		}
 	}
 	ws := genCrashWrites(rng, n, win)
+	if slow && win <= 1 {
+		// around the stalled entry (hit k of the point ~ write k-1): a filled list, then value-returning writes whose
+		// reply cannot be produced before they are applied (LPOP of a non-empty list), so that a reply handed out early
+		// or belonging to another request shows as a wrong reply rather than as an error
+		for i := k - 6; i < k+12 && i < len(ws); i++ {
+			if i < 0 {
+				continue
+			}
+			switch {
+			case i < k-1:
+				ws[i].spec = specOp{"lpush", "k2", "v" + strconv.Itoa(i+1), "-"}
+			case i >= k && (i-k)%3 != 2:
+				ws[i].spec = specOp{"lpop", "k2", "-", "-"}
+			case i >= k:
+				ws[i].spec = specOp{"lpush", "k2", "v" + strconv.Itoa(i+1), "-"}
+			}
+		}
+	}
 	L := g.kids[leader]
 	sent, answered := 0, 0
 	died := "kill"
